@@ -218,6 +218,107 @@ def run(ctx):
                 ctx.traces_validated += 1
     else:
         ctx.notes.append('driver unavailable: correspondence skipped, oracle only')
+    real_lm_oracle(ctx, rng)
+
+
+def real_lm_oracle(ctx, rng):
+    """The prefix decoder with the REAL LMWrapper / HiddenState (lm_wrapper.py is an anchor of C03) around a tiny seeded torch LM.
+    Reference: the raw torch modules run symbol by symbol along each returned transcript from a pristine copy of the start state.
+    History: the same decoder AND the same start-state object are used for several lines."""
+    import torch
+    from pero_ocr.decoding.decoders import CTCPrefixLogRawNumpyDecoder, BLANK_SYMBOL
+    from pero_ocr.decoding.lm_wrapper import HiddenState
+    from .c08 import make_torch_lm
+
+    def clone(h):
+        return tuple(x.clone() for x in h) if isinstance(h, tuple) else h.clone()
+
+    def same(a, b, tol=0.0):
+        if isinstance(a, tuple) != isinstance(b, tuple):
+            return False
+        aa, bb = (a, b) if isinstance(a, tuple) else ((a,), (b,))
+        return len(aa) == len(bb) and all(x.shape == y.shape and float((x - y).abs().max()) <= tol for x, y in zip(aa, bb))
+
+    n = 60 if ctx.quick() else 500
+    for it in range(n):
+        nch = rng.choice([2, 3])
+        tuple_state = rng.random() < 0.5
+        lmw = make_torch_lm(rng, nch, tuple_state)
+        lm = lmw._lm
+        letters = [chr(97 + i) for i in range(nch)] + [BLANK_SYMBOL]
+        k = rng.choice([1, 1, 2, 3])
+        num, den = rng.choice([(0, 1), (1, 2), (1, 1), (2, 1)])
+        scale = num / den
+        bonus = rng.choice([0.0, 0.4])
+        model_eos = rng.random() < 0.4
+        kw = dict(lm=lmw, lm_scale=scale, insertion_bonus=bonus)
+        if rng.random() < 0.5:
+            kw['relevant_logits_selector'] = lambda x: np.nonzero(x > -np.inf)
+        dec = CTCPrefixLogRawNumpyDecoder(letters, k, **kw)
+        # start state: none (the LM's initial state) or the state after some earlier text, handed over as ONE object for all lines
+        with torch.no_grad():
+            raw0 = lm.model(torch.tensor([[0]]), lm.model.init_hidden(1))[1]
+            supplied = rng.random() < 0.7
+            if supplied:
+                txt = [rng.randrange(1, nch + 1) for _ in range(rng.randrange(0, 4))]
+                raw_start = lm.model(torch.tensor([[0] + txt + [0]]), lm.model.init_hidden(1))[1]
+            else:
+                raw_start = raw0
+        pristine = clone(raw_start)
+        init_h = HiddenState(clone(raw_start)) if supplied else None
+        lines = [pb.gen_matrix(rng, C=nch + 1) for _ in range(rng.choice([1, 2, 2, 3]))]
+        lines = [r for r in lines if not pb.near_threshold(r)]
+        if rng.random() < 0.5 and lines:
+            lines.append(lines[0])                                  # the same line again, later
+        inp = dict(real_lm=dict(chars=nch, tuple_state=tuple_state), k=k, scale=[num, den], bonus=bonus, model_eos=model_eos,
+                   start_state_supplied=supplied, lines=lines)
+        results = []
+        for li, rows in enumerate(lines):
+            ctx.evaluations += 1
+            L = pb.to_logits(rows)
+            try:
+                bag, h_ret = dec(L, model_eos=model_eos, return_h=True, init_h=init_h)
+            except Exception as e:
+                ctx.violation('raises:real-lm:' + type(e).__name__, 'decoder with the real LMWrapper raised %r' % (e,), dict(inp, line=li))
+                break
+            got = hyps_of(bag)
+            results.append(got)
+            if supplied and not same(init_h.prepare_for_torch(), pristine):
+                ctx.violation('start-state-modified', 'decoding changed the LM start state object it was given (the next line then starts '
+                              'from another state)', dict(inp, line=li))
+                break
+            # reference along every transcript
+            ref_state = {}
+            with torch.no_grad():
+                for tr, vis, lm_sc in got:
+                    h = clone(pristine)
+                    sc = 0.0
+                    for c in tr:
+                        out = (h[0] if isinstance(h, tuple) else h)[-1]
+                        y = lm.decoder(out)
+                        sc += float(y[0, c + 1]) + bonus
+                        h = lm.model(torch.tensor([[c + 1]]), h)[1]
+                    if model_eos:
+                        out = (h[0] if isinstance(h, tuple) else h)[-1]
+                        sc += float(lm.decoder(out)[0, 0])
+                    ref_state[tr] = h
+                    if lm_sc is None or abs(lm_sc - sc) > 1e-4 * (1 + abs(sc)):
+                        ctx.violation('lm-score:real-lm', "reported LM score is not the LM's own score along the transcript from the given "
+                                      'start state (real LMWrapper)', dict(inp, line=li), [list(tr), lm_sc], sc)
+            tot = [vis + scale * lm_sc for tr, vis, lm_sc in got]
+            order = sorted(range(len(got)), key=lambda i: -tot[i])
+            if len(order) == 1 or abs(tot[order[0]] - tot[order[1]]) > 1e-6:
+                if not same(h_ret.prepare_for_torch(), ref_state[got[order[0]][0]], 1e-4):
+                    ctx.violation('returned-state:real-lm', 'returned LM state is not the state of the best hypothesis (real LMWrapper)',
+                                  dict(inp, line=li))
+            if len(got) >= 2 or li > 0:
+                ctx.nontriv(dict(inp, line=li))
+        # the same line decoded twice with the same decoder and start state gives the same result
+        if len(results) == len(lines) and len(lines) >= 2 and lines[-1] is lines[0]:
+            a, b = results[0], results[-1]
+            if [t for t, _, _ in a] != [t for t, _, _ in b] or any(abs(x[1] - y[1]) > 1e-9 or abs(x[2] - y[2]) > 1e-6 for x, y in zip(a, b)):
+                ctx.violation('repeat:real-lm', 'the same line decoded again with the same decoder and start state gives another result', inp)
+        ctx.count('real_lm_cases')
 
 
 def replay(data):
